@@ -578,3 +578,13 @@ def c12(ctx):
                 "are run on each; TLC validates the exact cases against the 53-bit quotient computed by long division "
                 "(module Dbl) and the mutual agreement of the evaluators on all cases, to 2^-40")
     simple(ctx, "MC_C12", "Trace_C12", floor=0.5)
+
+
+@plan("C15")
+def c15(ctx):
+    ctx.rule = ("TLC enumerates expressions in x, y (arithmetic, integer / fractional / symbolic powers, 27 functions, "
+                "atan2, max/min, piecewise, constants, rationals, floats; nested one level) in batches at two numeric "
+                "bindings; ccode, the C89 and the C99 printer print each, the C compiler compiles the printed source "
+                "(-std=c89 / -std=c99) and the program is run; TLC validates that what was printed compiles and that "
+                "the computed double agrees to 2^-40 with the library's evaluation of the expression at the binding")
+    simple(ctx, "MC_C15", "Trace_C15", floor=0.5)
